@@ -52,7 +52,7 @@ impl<'a> Iterator for Tokenizer<'a> {
                             break;
                         }
                     }
-                    Some(Token::Num(Number::Float(number.parse::<f64>().unwrap())))
+                    Some(Token::Num(Number::Float(number.parse::<f64>().ok()?)))
                 } else {
                     None
                 }
@@ -60,52 +60,52 @@ impl<'a> Iterator for Tokenizer<'a> {
             Some('⁰') => Some(Token::Superscript(Number::Integer(
                 deserialize_superscript_number(&current_char?, &mut self.expr)
                     .parse::<i64>()
-                    .unwrap(),
+                    .ok()?,
             ))),
             Some('¹') => Some(Token::Superscript(Number::Integer(
                 deserialize_superscript_number(&current_char?, &mut self.expr)
                     .parse::<i64>()
-                    .unwrap(),
+                    .ok()?,
             ))),
             Some('²') => Some(Token::Superscript(Number::Integer(
                 deserialize_superscript_number(&current_char?, &mut self.expr)
                     .parse::<i64>()
-                    .unwrap(),
+                    .ok()?,
             ))),
             Some('³') => Some(Token::Superscript(Number::Integer(
                 deserialize_superscript_number(&current_char?, &mut self.expr)
                     .parse::<i64>()
-                    .unwrap(),
+                    .ok()?,
             ))),
             Some('⁴') => Some(Token::Superscript(Number::Integer(
                 deserialize_superscript_number(&current_char?, &mut self.expr)
                     .parse::<i64>()
-                    .unwrap(),
+                    .ok()?,
             ))),
             Some('⁵') => Some(Token::Superscript(Number::Integer(
                 deserialize_superscript_number(&current_char?, &mut self.expr)
                     .parse::<i64>()
-                    .unwrap(),
+                    .ok()?,
             ))),
             Some('⁶') => Some(Token::Superscript(Number::Integer(
                 deserialize_superscript_number(&current_char?, &mut self.expr)
                     .parse::<i64>()
-                    .unwrap(),
+                    .ok()?,
             ))),
             Some('⁷') => Some(Token::Superscript(Number::Integer(
                 deserialize_superscript_number(&current_char?, &mut self.expr)
                     .parse::<i64>()
-                    .unwrap(),
+                    .ok()?,
             ))),
             Some('⁸') => Some(Token::Superscript(Number::Integer(
                 deserialize_superscript_number(&current_char?, &mut self.expr)
                     .parse::<i64>()
-                    .unwrap(),
+                    .ok()?,
             ))),
             Some('⁹') => Some(Token::Superscript(Number::Integer(
                 deserialize_superscript_number(&current_char?, &mut self.expr)
                     .parse::<i64>()
-                    .unwrap(),
+                    .ok()?,
             ))),
             Some('0'..='9') => {
                 let mut floatting = false;
@@ -123,9 +123,9 @@ impl<'a> Iterator for Tokenizer<'a> {
                     }
                 }
                 if floatting {
-                    Some(Token::Num(Number::Float(number.parse::<f64>().unwrap())))
+                    Some(Token::Num(Number::Float(number.parse::<f64>().ok()?)))
                 } else {
-                    Some(Token::Num(Number::Integer(number.parse::<i64>().unwrap())))
+                    Some(Token::Num(Number::Integer(number.parse::<i64>().ok()?)))
                 }
             }
             Some('a') => match self.expr.clone().take(6).collect::<String>().as_str() {
